@@ -2,7 +2,8 @@
 //! event line per call. Knows nothing about Noise.
 use crate::rec::{make_resolver, parse_rng, probe_resolver, Ctl, RngMode};
 use crate::util::{dig, enc_bytes, gen_bytes, hex, hex_or_dash, sanitize, unhex};
-use snow::params::{CipherChoice, DHChoice, HashChoice, NoiseParams};
+use snow::params::NoiseParams;
+use snow::resolvers::BoxedCryptoResolver;
 use snow::{Builder, HandshakeState, StatelessTransportState, TransportState};
 use std::cell::RefCell;
 use std::collections::HashMap;
@@ -914,36 +915,35 @@ fn conc_op(f: &[&str], sl: &HashMap<&str, &StatelessTransportState>, regs: &Regs
     }
 }
 
-pub fn parse_choices(m: &Kv) -> (Option<DHChoice>, Option<CipherChoice>, Option<HashChoice>) {
-    let c = m.get("choice").copied().unwrap_or("");
-    (c.parse().ok(), c.parse().ok(), c.parse().ok())
+fn probe_one(r: &BoxedCryptoResolver, kind: &str, choice: &str) -> Result<Option<String>, String> {
+    Ok(match kind {
+        "rng" => r.resolve_rng().map(|mut g| {
+            let mut b = [0_u8; 4];
+            g.fill_bytes(&mut b);
+            hex(&b)
+        }),
+        "dh" => r.resolve_dh(&choice.parse().map_err(|_| "choice")?).map(|o| o.name().to_string()),
+        "cipher" => r.resolve_cipher(&choice.parse().map_err(|_| "choice")?).map(|o| o.name().to_string()),
+        "hash" => r.resolve_hash(&choice.parse().map_err(|_| "choice")?).map(|o| o.name().to_string()),
+        _ => return Err("kind".into()),
+    })
 }
 
 pub fn probe(m: &Kv) -> Result<String, String> {
     let r = probe_resolver(m.get("r").ok_or("r=")?)?;
+    if let Some(seq) = m.get("seq") {
+        // several questions to ONE resolver instance, in order: `kind:choice;kind:choice;...`
+        let mut ids = Vec::new();
+        for q in seq.split(';') {
+            let (kind, choice) = q.split_once(':').ok_or("seq item")?;
+            ids.push(probe_one(&r, kind, choice)?.unwrap_or_else(|| "none".to_string()));
+        }
+        return Ok(format!("res=seq ids={}", ids.join(",")));
+    }
     let kind = m.get("kind").copied().unwrap_or("");
-    let (dh, ci, ha) = parse_choices(m);
-    Ok(match kind {
-        "rng" => match r.resolve_rng() {
-            Some(mut g) => {
-                let mut b = [0_u8; 4];
-                g.fill_bytes(&mut b);
-                format!("res=some id={}", hex(&b))
-            },
-            None => "res=none".into(),
-        },
-        "dh" => match r.resolve_dh(&dh.ok_or("choice")?) {
-            Some(o) => format!("res=some id={}", o.name()),
-            None => "res=none".into(),
-        },
-        "cipher" => match r.resolve_cipher(&ci.ok_or("choice")?) {
-            Some(o) => format!("res=some id={}", o.name()),
-            None => "res=none".into(),
-        },
-        "hash" => match r.resolve_hash(&ha.ok_or("choice")?) {
-            Some(o) => format!("res=some id={}", o.name()),
-            None => "res=none".into(),
-        },
-        _ => return Err("kind".into()),
+    let choice = m.get("choice").copied().unwrap_or("");
+    Ok(match probe_one(&r, kind, choice)? {
+        Some(id) => format!("res=some id={id}"),
+        None => "res=none".into(),
     })
 }
